@@ -93,7 +93,7 @@ func (s *Service) submitValidatorRegistrations(ctx context.Context) {
 		s.log.Debug().Msg("No validating accounts; not submiting validator registrations")
 		return
 	}
-	if s.executionConfig == nil {
+	if s.currentExecutionConfig() == nil {
 		monitorValidatorRegistrations(false, time.Since(started))
 		s.log.Debug().Msg("No execution config; not submiting validator registrations")
 		return
@@ -112,7 +112,7 @@ func (s *Service) submitValidatorRegistrationsForAccounts(ctx context.Context,
 	ctx, span := otel.Tracer("attestantio.vouch.services.blockrelay.standard").Start(ctx, "submitValidatorRegistrationsForAccounts")
 	defer span.End()
 
-	if s.executionConfig == nil {
+	if s.currentExecutionConfig() == nil {
 		return errors.New("no execution configuration; cannot submit validator registrations at current")
 	}
 
@@ -169,7 +169,7 @@ func (s *Service) generateValidatorRegistrationsForAccount(ctx context.Context,
 	pubkey := util.ValidatorPubkey(account)
 	controlledValidators[pubkey] = struct{}{}
 
-	proposerConfig, err := s.executionConfig.ProposerConfig(ctx, account, pubkey, s.fallbackFeeRecipient, s.fallbackGasLimit)
+	proposerConfig, err := s.currentExecutionConfig().ProposerConfig(ctx, account, pubkey, s.fallbackFeeRecipient, s.fallbackGasLimit)
 	if err != nil {
 		return nil, errors.Wrap(err, "No proposer configuration; cannot submit validator registrations")
 	}
